@@ -11,6 +11,7 @@ import Emboss.Lemmas.TypesIff
 import Emboss.Lemmas.TypesLoc
 import Emboss.Lemmas.TypesSub
 import Emboss.Lemmas.TypesMod
+import Emboss.Lemmas.TypesNat
 namespace Emboss.Types
 
 private def L (n : Nat) : Loc := ⟨n, false⟩
@@ -275,6 +276,29 @@ theorem C13_total_partial (m : Module) (wf : m.wf) (k : Crash) (h : run m = .cra
     k = .attrSignedNotLiteral ∨ (annotate m ≠ [] ∧ ∀ er ∈ annotate m, er.hidden = true) :=
   run_crashed m wf k h
 
+/-- For a user-written module (no synthetic location in its expressions and parameter
+declarations) every error of `annotate_types` is visible, the pipeline stops there, and the
+unguarded reads are never reached: the only exception that can escape is the open
+`[is_signed: <non-literal>]` finding. -/
+theorem C13_total_natural_partial (m : Module) (wf : m.wf) (hn : m.natural) (k : Crash)
+    (h : run m = .crashed k) : k = .attrSignedNotLiteral :=
+  run_crashed_natural m wf hn k h
+
+/-- … and with literal `[is_signed]` attributes (what `attrLate` asks) none does: the full
+totality statement for the modelled passes, on user-written input. -/
+theorem C13_total_natural (m : Module) (wf : m.wf) (hn : m.natural) (hl : attrLate m.attrs = none)
+    (k : Crash) : run m ≠ .crashed k :=
+  run_total_natural m wf hn hl k
+
+/-- non-vacuity: the example module is well-formed, user-written, has no `[is_signed]`; so is its
+ill-typed variant (`if 5:`), which is rejected in pass 2 -/
+example : exMod.wf ∧ exMod.natural ∧ attrLate exMod.attrs = none ∧
+    run { exMod with conds := [(0, .num (L 5))], exprs := exMod.exprs ++ [(0, .num (L 5))] }
+      = .rejected 2 [⟨L 5, 0, .posExist, []⟩] := by
+  refine ⟨?_, ?_, by decide, by decide⟩
+  · simp [Module.wf, inspected, attrExprs, exMod]
+  · simp [Module.natural, exMod, natural, L]
+
 /-- FINDING (open): `[is_signed: 1 == 1]` is accepted by the validator and raises later
 ("Duplicate attribute"); and the array-parameter read is reachable when the location is
 synthetic (model only: user-written parameters never are). -/
@@ -294,6 +318,20 @@ example :
       = [⟨L 3, 0, .cmpArg 0, []⟩, ⟨L 2, 0, .cmpArg 0, []⟩] ∧
     (tc 0 (.bin (L 1) .eq (.builtin (L 2) .other) (.num (L 3)))).errs
       = [⟨L 2, 0, .builtinCtx, []⟩, ⟨L 2, 0, .cmpArg 0, []⟩] := by decide
+
+/-- Whatever any of the three passes reports lies — location *and* file name — at one of the
+module's own items: inside a top-level expression (through a reference: inside the referred
+definition, under the file name of the module that holds it), at a parameter declaration, at
+an inspected expression (start, size, array length, condition, enum value, passed argument), at
+a parameterised type use, or at an attribute value. -/
+theorem C13_module_errors_located (m : Module) (er : Err)
+    (h : er ∈ annotate m ∨ er ∈ (checkTypes m).errs ∨ er ∈ (attrAll m.attrs).errs) : ErrAt m er := by
+  rcases h with h | h | h
+  · exact annotate_at m er h
+  · exact checkTypes_at m er h
+  · exact attrAll_at m m.attrs (fun _ ha => ha) er h
+
+example : (checkTypes { exMod with conds := [(3, .num (L 5))] }).errs = [⟨L 5, 3, .posExist, []⟩] := by decide
 
 /-- The pipeline model never reports a hidden (synthetic) error when a pass has visible ones:
 what `run` reports for passes 1–3 is non-synthetic. -/
